@@ -54,6 +54,13 @@ PIPE_MODELS = [
      <body name="tool" pos="0.3 0 0" quat="0.9 0.1 0.3 0.2"><site name="tip" pos="0.02 0 0"/></body></body></body>
      <body name="fixture" pos="1 0 0"><site name="mark"/></body></worldbody>
      <actuator><motor joint="a" gear="2"/><position joint="b" kp="3"/></actuator></mujoco>""", "nq": 2, "nv": 2, "nu": 2, "quat": []},
+    # parameters AT their boundary value: every dof_damping, jnt_stiffness, dof_armature, gravcomp entry exactly 0 (Euler with implicit joint damping:
+    # the derivative with respect to dof_damping has an explicit part through qfrc_passive and an implicit part through M + h diag(damping))
+    {"name": "undamped_euler", "tier": "quick", "fns": ["step"], "xml":
+     """<mujoco><option timestep="0.01"/><worldbody><body pos="0 0 1"><joint name="a" type="hinge" axis="0 1 0"/>
+     <geom type="capsule" fromto="0 0 0 0.3 0 0" size="0.03" contype="0" conaffinity="0"/><body pos="0.3 0 0"><joint name="b" type="slide" axis="1 0 0"/>
+     <geom size="0.05" contype="0" conaffinity="0"/><body pos="0.1 0 0"><joint name="c" type="hinge" axis="0 0 1"/><geom type="capsule" fromto="0 0 0 0 0.2 0" size="0.02" contype="0" conaffinity="0"/></body></body></body></worldbody>
+     <actuator><motor joint="b"/></actuator></mujoco>""", "nq": 3, "nv": 3, "nu": 1, "quat": []},
     {"name": "ball_slide_rk4", "tier": "thorough", "xml":
      """<mujoco><option timestep="0.004" integrator="RK4" density="1000" viscosity="0.001"/><worldbody><body pos="0 0 1" gravcomp="0.5"><joint name="bj" type="ball" damping="0.05"/>
      <geom type="capsule" fromto="0 0 0 0.3 0 0" size="0.03"/><body pos="0.3 0 0"><joint name="s" type="slide" axis="1 0 0" stiffness="30" damping="0.5"/>
@@ -245,7 +252,7 @@ def run(ctx):
     for mo in PIPE_MODELS:
         if quick and mo["tier"] != "quick":
             continue
-        for fn in ("forward", "step"):
+        for fn in mo.get("fns", ("forward", "step")):
             states = [rand_state(rng, mo, k) for k in range(2 if quick else 3)]
             pjobs.append({"op": "pipeline", "xml": mo["xml"], "fn": fn, "nprobe": 2 if quick else 3, "seed": rng.randrange(1 << 30), "states": states, "params": True})
             pmeta.append((mo, fn, states))
